@@ -100,6 +100,18 @@ def multisets(alpha, k):
     return itertools.combinations_with_replacement(alpha, k)
 
 
+def twins(prefix, cfg, scens, size):
+    """The sampled simulations (observing the remaining work makes the lazy models update it at every step) and the same
+    scenarios in unsampled simulations, where only the dates are judged: the observation must not hide a late update."""
+    import copy
+    plain = []
+    for sc in scens:
+        t = copy.copy(sc)
+        t.meta = dict(sc.meta, unsampled=True)
+        plain.append(t)
+    return pack(prefix, cfg, scens, size, HEAD) + pack(prefix + "u", cfg, plain, 4 * size if size > 1 else 1, ["sample 0"])
+
+
 def bounds_for(ctx):
     B = []
 
@@ -107,9 +119,9 @@ def bounds_for(ctx):
         out = []
         for optim in ("Lazy", "Full"):
             sc = [kequal_scen("q%d" % i, k, n, optim) for i, (k, n) in enumerate(itertools.product(range(1, 5), repeat=2))]
-            out += pack("keq" + optim, CPU_CFG[optim], sc, PACK, HEAD)
+            out += twins("keq" + optim, CPU_CFG[optim], sc, PACK)
         sc = [kequal_scen("q%d" % i, k, 1, "TI") for i, k in enumerate(range(1, 5))]
-        out += pack("keqTI", CPU_CFG["TI"], sc, PACK, HEAD)
+        out += twins("keqTI", CPU_CFG["TI"], sc, PACK)
         return out
 
     def g_exec(k, coreset, optims):
@@ -122,7 +134,7 @@ def bounds_for(ctx):
                         if optim == "TI" and (cores != 1 or any(a in ("bound", "thr") for _, _, a in v)):
                             continue
                         sc.append(exec_scen("x%d" % len(sc), cores, v, optim))
-                out += pack("ex%d%s_" % (k, optim), CPU_CFG[optim], sc, PACK, HEAD)
+                out += twins("ex%d%s_" % (k, optim), CPU_CFG[optim], sc, PACK)
             return out
         return gen
 
@@ -134,7 +146,7 @@ def bounds_for(ctx):
                 for pol in policies:
                     sc = [comm_scen("m%d" % i, v, xt, pol, name + ("" if pol == "SHARED" else "/" + pol))
                           for i, v in enumerate(multisets(COMM_ALPHA, k))]
-                    out += pack("cm%d%s%s_" % (k, name.replace("/", ""), pol[0]), cfg, sc, PACK, HEAD)
+                    out += twins("cm%d%s%s_" % (k, name.replace("/", ""), pol[0]), cfg, sc, PACK)
             return out
         return gen
 
@@ -142,7 +154,7 @@ def bounds_for(ctx):
         def gen():
             # every I/O scenario alone in its simulation: the disk model rounds progress per simulation step (see C20)
             sc = [io_scen("i%d" % i, v) for i, v in enumerate(multisets(IO_ALPHA, k))]
-            return pack("io%d_" % k, [], sc, 1, HEAD)
+            return twins("io%d_" % k, [], sc, 1)
         return gen
 
     B.append(("k equal execs on n cores, k,n in 1..4", g_kequal))
@@ -180,6 +192,7 @@ def judge(sc, r, case=None):
     if r["status"] != "exit=0":
         return [("C21 %s harness-status" % lab, "harness ended with %s: %s" % (r["status"], r["raw"][-300:]))], None, "crash"
     fails = []
+    U = " (unsampled run)" if m.get("unsampled") else ""
     ref, timeline = reference(m)
     samples = [s for s in r["samples"] if s["where"] == "adv"]
     times = [0.0] + [s["t"] for s in samples]
@@ -189,12 +202,14 @@ def judge(sc, r, case=None):
         o = r["acts"].get(aid)
         cost = a["cost"]
         if o is None or o["state"] != "FINISHED":
-            fails.append(("C21 %s not-finished" % lab, "%s ended in state %s" % (aid, o and o["state"])))
+            fails.append(("C21 %s%s not-finished" % (lab, U), "%s ended in state %s" % (aid, o and o["state"])))
             continue
         rf = ref[aid]
         if not close(o["start"], rf["start"]) or not close(o["finish"], rf["finish"]):
-            fails.append(("C21 %s dates" % lab, "%s ran [%.17g, %.17g], exact fluid reference [%s, %s] = [%.17g, %.17g]" % (
+            fails.append(("C21 %s%s dates" % (lab, U), "%s ran [%.17g, %.17g], exact fluid reference [%s, %s] = [%.17g, %.17g]" % (
                 aid, o["start"], o["finish"], rf["start"], rf["finish"], float(rf["start"]), float(rf["finish"]))))
+        if m.get("unsampled"):
+            continue
         # --- invariants on the samples
         tol = F(1, 10**9) * cost
         prev_rem, prev_t = None, F(o["start"])
@@ -269,6 +284,8 @@ def judge(sc, r, case=None):
                     contended = True
     seen = set()
     fails = [f for f in fails if not (f[0] in seen or seen.add(f[0]))]
+    if m.get("unsampled"):
+        return fails, False, m["kind"] + "/unsampled" + ("!" if fails else "")
     return fails, contended, m["kind"] + ("/contended" if contended else "/free") + ("!" if fails else "")
 
 
